@@ -31,6 +31,23 @@ import (
 // The successor state of a non-default order is kept in the search ("alt:<choices>" op,
 // which re-interprets the preceding publish) whenever it differs from the default's.
 //
+// Extended alphabet ("ext" and "ret"/"ret2", own scenarios): histories in which the index entry of a group
+// is disturbed by somebody who is not a member of it, while its members keep their
+// subscriptions (the property quantifies over publishes, whatever preceded them):
+//   sub/unsub:<client>:5|6           (ext)   5 x/y/z (stored beneath the node of filter 2)  6 x/+/z (beneath the node of 1 and 3);
+//                                            neither matches a published topic
+//   unsub:<client>:<k>               (ext)   by a client that does NOT hold k (enabled while another client holds k):
+//                                            UNSUBSCRIBE of a share group by a non-member, of x/# by a non-subscriber
+//   ret:<topic> / clr:<topic>        (ret)   p sets / clears a retained message at x/y/z (beneath filter 2's node;
+//                                            "ret2": also at x/y, the node itself); not judged themselves
+// The model ignores all of them for the groups (a non-holder's UNSUBSCRIBE removes nothing).
+// Clients a, b, c are interchangeable in these scenarios (same CONNECT, all online): a
+// client may act only after every alphabetically smaller one has acted (symmetry reduction;
+// not applied to c under "off").
+// When a group is left unserved the key names what disturbed it since it last became
+// non-empty: ":after-nonmember-unsubscribe", ":after-deeper-entry-removed" (subscription or
+// retained message beneath the group's node), ":after-retained-cleared-at-group-node".
+//
 // Oracle (from the property statement only): R = clients that received the tag (online
 // now, or on resuming a persistent session when the delivered QoS is > 0). There must be
 // a choice function g -> member(g) over the matching groups with
@@ -38,12 +55,63 @@ import (
 // in R has exactly one copy. An offline member chosen for a QoS 0 message is invisible
 // (permitted omission), so it may stand in for a group without appearing in R.
 
-var c06Filters = map[string]string{"1": "$share/g1/x/+", "2": "$share/g1/x/y", "3": "$share/g2/x/+", "4": "x/#"}
+var c06Filters = map[string]string{"1": "$share/g1/x/+", "2": "$share/g1/x/y", "3": "$share/g2/x/+", "4": "x/#", "5": "x/y/z", "6": "x/+/z"}
 
 type c06Model struct {
 	subs                      map[string]bool // "client|k"
 	online                    map[string]bool
 	nsub, npub, nunsub, nconn int
+	// extended alphabet
+	acted    map[string]bool // clients that sent a SUBSCRIBE / UNSUBSCRIBE (symmetry reduction)
+	retained map[string]bool // topics holding a retained message
+	nret     int
+	cause    map[string]bool // shared filter key k + "|" + cause (what disturbed the group's index entry since it became non-empty)
+}
+
+// c06Inner returns the topic filter of a (shared or plain) subscription filter.
+func c06Inner(f string) string {
+	if _, in, ok := ref.SplitShare(f); ok {
+		return in
+	}
+	return f
+}
+
+// members returns the number of clients holding filter k.
+func (m *c06Model) members(k string) int {
+	n := 0
+	for s := range m.subs {
+		if s[2:] == k {
+			n++
+		}
+	}
+	return n
+}
+
+// disturb records `cause` for every non-empty share group selected by pick.
+func (m *c06Model) disturb(cause string, pick func(k, inner string) bool) {
+	for _, k := range []string{"1", "2", "3"} {
+		if m.members(k) > 0 && pick(k, c06Inner(c06Filters[k])) {
+			m.cause[k+"|"+cause] = true
+		}
+	}
+}
+
+// entryRemoved: the index entry `path` (a plain filter or a retained topic) disappeared.
+func (m *c06Model) entryRemoved(path string, retained bool) {
+	m.disturb("after-deeper-entry-removed", func(k, inner string) bool { return strings.HasPrefix(path, inner+"/") })
+	if retained {
+		m.disturb("after-retained-cleared-at-group-node", func(k, inner string) bool { return path == inner })
+	}
+}
+
+func (m *c06Model) causesOf(k string) string {
+	out := ""
+	for _, c := range []string{"after-nonmember-unsubscribe", "after-deeper-entry-removed", "after-retained-cleared-at-group-node"} {
+		if m.cause[k+"|"+c] {
+			out += ":" + c
+		}
+	}
+	return out
 }
 
 type c06Res struct {
@@ -57,6 +125,23 @@ type c06Res struct {
 
 var c06SelectFuncs = map[string]bool{"SelectShared": true}
 var c06PathFuncs = map[string]bool{"SelectShared": true, "MergeSharedSelected": true, "gatherSharedSubscriptions": true, "publishToSubscribers": true}
+
+// c06Ext returns the extended-alphabet settings of a scenario argument: "ext" (filters 5
+// and 6, UNSUBSCRIBE by non-holders), the retained-message topic pool ("ret" -> x/y/z;
+// "ret2" -> x/y/z and x/y), and whether the symmetry reduction applies.
+func c06Ext(arg string) (ext bool, retTopics []string, sym bool) {
+	for _, a := range strings.Split(arg, ",") {
+		switch a {
+		case "ext":
+			ext = true
+		case "ret":
+			retTopics = []string{"x/y/z"}
+		case "ret2":
+			retTopics = []string{"x/y", "x/y/z"}
+		}
+	}
+	return ext, retTopics, ext || len(retTopics) > 0
+}
 
 func c06Pools(arg string) (maxSub, maxPub, maxUnsub, mapBound int, off bool) {
 	maxSub, maxPub, maxUnsub, mapBound = 4, 1, 1, 1
@@ -77,6 +162,7 @@ func c06Pools(arg string) (maxSub, maxPub, maxUnsub, mapBound int, off bool) {
 // choice prefix `last`; earlier publishes followed by "alt:<vec>" run under that vector.
 func c06Once(arg string, hist []string, last []int, enumerate bool) c06Res {
 	maxSub, maxPub, maxUnsub, _, off := c06Pools(arg)
+	ext, retTopics, symRed := c06Ext(arg)
 	// choice prefix of the whole execution = vectors of earlier alt'ed publishes + last
 	var prefix []int
 	for i, op := range hist {
@@ -86,7 +172,7 @@ func c06Once(arg string, hist []string, last []int, enumerate bool) c06Res {
 	}
 	prefix = append(prefix, last...)
 	h := &H{W: world.New(prefix, world.Config{MapSite: func(site string) bool { return c06PathFuncs[siteFunc(site)] }}), Cl: map[string]*world.Client{}}
-	m := &c06Model{subs: map[string]bool{}, online: map[string]bool{"a": true, "b": true, "c": true}}
+	m := &c06Model{subs: map[string]bool{}, online: map[string]bool{"a": true, "b": true, "c": true}, acted: map[string]bool{}, retained: map[string]bool{}, cause: map[string]bool{}}
 	res := c06Res{}
 	h.connect("p", world.ConnectPacket("p", 4, true))
 	h.connect("a", world.ConnectPacket("a", 5, true))
@@ -108,10 +194,29 @@ func c06Once(arg string, hist []string, last []int, enumerate bool) c06Res {
 			cl, k := f[1], f[2]
 			pid++
 			t := byte(ref.SUBSCRIBE)
+			if symRed {
+				m.acted[cl] = true
+			}
 			if f[0] == "unsub" {
 				t = ref.UNSUBSCRIBE
 				m.nunsub++
+				held := m.subs[cl+"|"+k]
 				delete(m.subs, cl+"|"+k)
+				switch {
+				case !held && ref.IsShare(c06Filters[k]):
+					// a non-member's UNSUBSCRIBE removes nothing [MQTT-3.10.4-1: only the client's own subscription]
+					m.disturb("after-nonmember-unsubscribe", func(k2, _ string) bool { return k2 == k })
+				case held && ref.IsShare(c06Filters[k]):
+					if m.members(k) == 0 {
+						for c := range m.cause {
+							if strings.HasPrefix(c, k+"|") {
+								delete(m.cause, c)
+							}
+						}
+					}
+				case held && m.members(k) == 0:
+					m.entryRemoved(c06Filters[k], false)
+				}
 			} else {
 				m.nsub++
 				m.subs[cl+"|"+k] = true
@@ -127,6 +232,21 @@ func c06Once(arg string, hist []string, last []int, enumerate bool) c06Res {
 			m.online["c"] = true
 			m.nconn++
 			h.connectSettle("c", cConn, true)
+		case "ret", "clr":
+			// retained message set / cleared by p (not judged: C03/C05 own retained delivery)
+			pk := ref.Packet{Type: ref.PUBLISH, Topic: f[1], Retain: true}
+			if f[0] == "ret" {
+				pk.Payload = []byte("r")
+				m.nret++
+				m.retained[f[1]] = true
+			} else {
+				delete(m.retained, f[1])
+				m.entryRemoved(f[1], true)
+			}
+			h.Cl["p"].Send(pk)
+			h.logf("p: -> %s", pk)
+			h.W.Run()
+			h.settle(true)
 		case "alt":
 			// consumed together with the preceding publish
 		case "pub":
@@ -164,18 +284,42 @@ func c06Once(arg string, hist []string, last []int, enumerate bool) c06Res {
 	var next []string
 	if m.npub < maxPub {
 		next = append(next, "pub:x/y:0", "pub:x/y:1", "pub:x/z:0")
+		filters := []string{"1", "2", "3", "4"}
+		if ext {
+			filters = append(filters, "5", "6")
+		}
+		fresh := false // a smaller interchangeable client has not acted yet
 		for _, cl := range []string{"a", "b", "c"} {
+			sym := symRed && !(off && cl == "c")
+			if sym && fresh {
+				continue
+			}
+			if sym && !m.acted[cl] {
+				fresh = true
+			}
 			if !m.online[cl] {
 				continue
 			}
-			for _, k := range []string{"1", "2", "3", "4"} {
+			for _, k := range filters {
 				if m.subs[cl+"|"+k] {
 					if m.nunsub < maxUnsub {
 						next = append(next, "unsub:"+cl+":"+k)
 					}
-				} else if m.nsub < maxSub {
+					continue
+				}
+				if m.nsub < maxSub {
 					next = append(next, "sub:"+cl+":"+k)
 				}
+				if ext && m.nunsub < maxUnsub && m.members(k) > 0 {
+					next = append(next, "unsub:"+cl+":"+k) // by a client that does not hold k
+				}
+			}
+		}
+		for _, t := range retTopics {
+			if m.retained[t] {
+				next = append(next, "clr:"+t)
+			} else if m.nret < 1 {
+				next = append(next, "ret:"+t)
 			}
 		}
 		if off {
@@ -196,7 +340,8 @@ func c06Once(arg string, hist []string, last []int, enumerate bool) c06Res {
 }
 
 func c06Key(h *H, m *c06Model) string {
-	return h.W.State() + fmt.Sprintf("|model:%v|%v|%d,%d,%d,%d", explore.SortedKeys(m.subs), m.online, m.nsub, m.npub, m.nunsub, m.nconn)
+	return h.W.State() + fmt.Sprintf("|model:%v|%v|%d,%d,%d,%d|%v|%v,%d|%v", explore.SortedKeys(m.subs), m.online, m.nsub, m.npub, m.nunsub, m.nconn,
+		explore.SortedKeys(m.acted), explore.SortedKeys(m.retained), m.nret, explore.SortedKeys(m.cause))
 }
 
 // c06Judge evaluates one executed publish.
@@ -305,6 +450,7 @@ func c06Judge(h *H, m *c06Model, topic, tag string, q byte, got map[string][]ref
 	rec(0)
 	if !ok && len(gnames) > 0 {
 		unserved := 0
+		causeSet := map[string]bool{}
 		sameName := false
 		names := map[string]int{}
 		for _, g := range gnames {
@@ -321,6 +467,13 @@ func c06Judge(h *H, m *c06Model, topic, tag string, q byte, got map[string][]ref
 			}
 			if !hit {
 				unserved++
+				for k, f := range c06Filters {
+					if f == g {
+						for _, c := range strings.Split(m.causesOf(k), ":")[1:] {
+							causeSet[c] = true
+						}
+					}
+				}
 			}
 		}
 		kind := "unchosen-member-received"
@@ -331,7 +484,11 @@ func c06Judge(h *H, m *c06Model, topic, tag string, q byte, got map[string][]ref
 		if sameName {
 			sh = "one-sharename-two-filters"
 		}
-		h.violate("c06:"+kind+":"+sh, "publish %s %q q%d: receivers %v cannot be explained by one member per group; groups=%v nonshared=%v", tag, topic, q, R, groups, explore.SortedKeys(ns))
+		causes := ""
+		for _, c := range explore.SortedKeys(causeSet) {
+			causes += ":" + c
+		}
+		h.violate("c06:"+kind+":"+sh+causes, "publish %s %q q%d: receivers %v cannot be explained by one member per group; groups=%v nonshared=%v", tag, topic, q, R, groups, explore.SortedKeys(ns))
 	}
 }
 
@@ -405,13 +562,15 @@ func init() {
 		c.Rep.Assumption("one operation at a time, broker run to quiescence under the default thread schedule; map iteration order is enumerated, not the thread schedule")
 		c.Rep.Assumption("map orders: full product at the ranges inside Subscribers.SelectShared (all n! orders for n<=3 keys); bounded number of non-default orders at the ranges of gatherSharedSubscriptions, MergeSharedSelected and publishToSubscribers")
 		c.Rep.Assumption("share group = ShareName + filter; all members authorised; an offline member chosen for a QoS 0 message is a permitted, invisible omission")
+		c.Rep.Assumption("scenarios ext/ret (a group's index entry disturbed by non-members: UNSUBSCRIBE by a client that does not hold the filter, subscriptions and retained messages beneath the group's node added and removed): clients a, b, c are treated as interchangeable, a client acts only after the alphabetically smaller ones have acted")
 		type sc struct {
 			arg    string
 			budget time.Duration
 		}
-		scen := []sc{{"s4p1u1,map1", 45 * time.Second}, {"s3p1u0,map1,off", 25 * time.Second}}
+		scen := []sc{{"s2p1u1,map1,ext", 20 * time.Second}, {"s2p1u0,map1,ret", 10 * time.Second}, {"s4p1u1,map1", 45 * time.Second}, {"s3p1u0,map1,off", 25 * time.Second}}
 		if !c.Quick() {
-			scen = []sc{{"s5p1u0,map1", 4 * time.Minute}, {"s4p1u1,map2", 150 * time.Second}, {"s3p2u1,map1", 90 * time.Second}, {"s4p1u1,map1,off", 2 * time.Minute}}
+			scen = []sc{{"s3p1u2,map1,ext", 70 * time.Second}, {"s3p1u1,map1,ret2", 25 * time.Second}, {"s2p1u1,map1,ext,ret,off", 25 * time.Second},
+				{"s5p1u0,map1", 4 * time.Minute}, {"s4p1u1,map2", 150 * time.Second}, {"s3p2u1,map1", 90 * time.Second}, {"s4p1u1,map1,off", 2 * time.Minute}}
 		}
 		tot := map[string]int64{}
 		for _, s := range scen {
